@@ -142,7 +142,7 @@ func (h ProtectedHeader) SetCWTClaims(claims CWTClaims) (CWTClaims, error) {
 
 // Algorithm gets the algorithm value from the algorithm header.
 func (h ProtectedHeader) Algorithm() (Algorithm, error) {
-	value, ok := h[HeaderLabelAlgorithm]
+	value, ok := lookupLabel(h, HeaderLabelAlgorithm)
 	if !ok {
 		return AlgorithmReserved, ErrAlgorithmNotFound
 	}
@@ -174,7 +174,7 @@ func (h ProtectedHeader) Algorithm() (Algorithm, error) {
 // Notice: The COSE Hash Envelope API is EXPERIMENTAL and may be changed or
 // removed in a later release.
 func (h ProtectedHeader) PayloadHashAlgorithm() (Algorithm, error) {
-	value, ok := h[HeaderLabelPayloadHashAlgorithm]
+	value, ok := lookupLabel(h, HeaderLabelPayloadHashAlgorithm)
 	if !ok {
 		return AlgorithmReserved, ErrAlgorithmNotFound
 	}
@@ -500,10 +500,29 @@ func (h *Headers) ensureIV() error {
 	return nil
 }
 
-// hasLabel returns true if h contains label.
+// hasLabel returns true if h contains label, whichever Go integer type is used
+// for the label.
 func hasLabel(h map[any]any, label any) bool {
-	_, ok := h[label]
+	_, ok := lookupLabel(h, label)
 	return ok
+}
+
+// lookupLabel returns the value stored in h under label. Integer labels match
+// regardless of the Go integer type used as the map key.
+func lookupLabel(h map[any]any, label any) (any, bool) {
+	if value, ok := h[label]; ok {
+		return value, true
+	}
+	want, ok := normalizeLabel(label)
+	if !ok {
+		return nil, false
+	}
+	for key, value := range h {
+		if got, ok := normalizeLabel(key); ok && got == want {
+			return value, true
+		}
+	}
+	return nil, false
 }
 
 // validateHeaderParameters validates all headers conform to the spec.
